@@ -47,10 +47,11 @@ type End struct {
 	Overlaps                      []string
 
 	// fault script
-	ops       int         // number of Send/Recv calls made so far on this end
-	FaultAt   map[int]int // op index -> fault kind
-	FaultRate float64     // per-operation probability of a random fault (drawn from Sched)
-	FaultKinds []int
+	sendOps, recvOps int         // number of Send / Recv calls made so far on this end
+	FaultSendAt      map[int]int // index of the Send call -> fault kind
+	FaultRecvAt      map[int]int // index of the Recv call -> fault kind
+	FaultRate        float64     // per-operation probability of a random fault (drawn from Sched)
+	OnFault          func(kind int)
 	Failed    bool // a fault has fired on this end
 	eofStuck  bool // the inbound stream has reported its end: every further Recv is io.EOF
 
@@ -59,8 +60,8 @@ type End struct {
 
 // NewPipe returns two connected ends.
 func NewPipe(r *Run, a, b string) (*End, *End) {
-	x := &End{r: r, Name: a, FaultAt: map[int]int{}}
-	y := &End{r: r, Name: b, FaultAt: map[int]int{}}
+	x := &End{r: r, Name: a, FaultSendAt: map[int]int{}, FaultRecvAt: map[int]int{}}
+	y := &End{r: r, Name: b, FaultSendAt: map[int]int{}, FaultRecvAt: map[int]int{}}
 	x.peer, y.peer = y, x
 	return x, y
 }
@@ -71,23 +72,40 @@ func (e *End) overlap(what string) {
 }
 
 func (e *End) faultFor(isSend bool) int {
-	k := e.ops
-	e.ops++
+	var k int
+	var at map[int]int
+	if isSend {
+		k, at = e.sendOps, e.FaultSendAt
+		e.sendOps++
+	} else {
+		k, at = e.recvOps, e.FaultRecvAt
+		e.recvOps++
+	}
 	if e.Failed {
 		return fNone
 	}
-	f, ok := e.FaultAt[k]
-	if !ok && e.FaultRate > 0 && len(e.FaultKinds) > 0 && e.r.Sch.Chance("fault", e.FaultRate) {
-		f = e.FaultKinds[e.r.Sch.Int("faultkind", len(e.FaultKinds))]
+	f, ok := at[k]
+	if !ok && e.FaultRate > 0 && e.r.Sch.Chance("fault", e.FaultRate) {
+		if isSend {
+			f = []int{fSendErrLost, fSendErrAfter}[e.r.Sch.Int("sendfault", 2)]
+		} else {
+			f = []int{fRecvErr, fRecvDataEOF, fRecvDataErr}[e.r.Sch.Int("recvfault", 3)]
+		}
 		ok = true
 	}
 	if !ok {
 		return fNone
 	}
-	if isSend != (f == fSendErrLost || f == fSendErrAfter) {
-		return fNone
-	}
 	return f
+}
+
+func (e *End) fired(f int) {
+	e.Failed = true
+	e.r.Fault(faultNames[f])
+	e.r.Ev("ch.fault", e.Name, 0, 0, faultNames[f])
+	if e.OnFault != nil {
+		e.OnFault(f)
+	}
 }
 
 // Send implements channel.Channel.
@@ -113,8 +131,7 @@ func (e *End) Send(b []byte) error {
 		err = fmt.Errorf("send on closed channel end %s", e.Name)
 	case f == fSendErrLost:
 		e.NSendFault++
-		e.Failed = true
-		e.r.Fault(faultNames[f])
+		e.fired(f)
 		err = ErrInjected
 	default:
 		if !e.peer.closed || !e.peer.CloseUnblocks {
@@ -123,8 +140,7 @@ func (e *End) Send(b []byte) error {
 		}
 		if f == fSendErrAfter {
 			e.NSendFault++
-			e.Failed = true
-			e.r.Fault(faultNames[f])
+			e.fired(f)
 			err = ErrInjected
 		}
 	}
@@ -158,8 +174,7 @@ func (e *End) Recv() ([]byte, error) {
 		err = io.EOF
 	} else if f == fRecvErr {
 		rt.Yield("sim:recv:fault")
-		e.Failed = true
-		e.r.Fault(faultNames[f])
+		e.fired(f)
 		err = ErrInjected
 	} else {
 		rt.Block("sim:recv", func() bool {
@@ -172,13 +187,11 @@ func (e *End) Recv() ([]byte, error) {
 			data = e.in[0]
 			e.in = e.in[1:]
 			if f == fRecvDataEOF {
-				e.Failed = true
 				e.eofStuck = true
-				e.r.Fault(faultNames[f])
+				e.fired(f)
 				err = io.EOF
 			} else if f == fRecvDataErr {
-				e.Failed = true
-				e.r.Fault(faultNames[f])
+				e.fired(f)
 				err = ErrInjected
 			}
 		default:
